@@ -43,6 +43,28 @@ Theorem C15_forge_not_refused_when_exceeding : forall d t g,
   exists h info, init_header d t g = Some (h, info).
 Proof. exact forge_not_refused_when_exceeding. Qed.
 
+(* several generator keys enabled on one node (generator DB = one record per address), any interleaving of their forge
+   ticks with crashes, arbitrary tip changes, syncing and restarts: the headers signed by EACH generator address are
+   pairwise non-contradicting, and so are all headers signed on the node *)
+Theorem C15_never_self_contradicting_multi : forall t0 evs g,
+  let s := mrun init_header (minit t0) evs in
+  follower_ge (signed_by g (mpublished s)) /\
+  forall b1 b2, In b1 (signed_by g (mpublished s)) -> In b2 (signed_by g (mpublished s)) -> b1 <> b2 -> contradicting b1 b2 = false.
+Proof. exact never_self_contradicting_multi. Qed.
+
+Theorem C15_never_contradicting_multi_all : forall t0 evs b1 b2,
+  let s := mrun init_header (minit t0) evs in
+  In b1 (mpublished s) -> In b2 (mpublished s) -> b1 <> b2 -> contradicting b1 b2 = false.
+Proof. exact never_contradicting_multi_all. Qed.
+
+(* one shared in-memory copy of the last info for all keys instead of the per-address record is refuted *)
+Theorem C15_shared_info_cache_refuted :
+  exists b1 b2 : bh, gen b1 = gen b2 /\ b1 <> b2 /\ contradicting b1 b2 = true /\
+    init_header None {| t_smhp := 5; t_height := 11 |} 2 = Some (b1, Build_geninfo 12 5 0) /\
+    hdr_shared_cache (Some (Build_geninfo 10 5 0)) (Some (Build_geninfo 12 5 0)) {| t_smhp := 5; t_height := 10 |} 2
+      = Some (b2, Build_geninfo 11 5 10).
+Proof. exact shared_cache_refuted. Qed.
+
 (* the original code (maxHeightGenerated = height of the LAST generated block) *)
 Theorem C15_never_self_contradicting_orig_refuted :
   exists g t0 evs b1 b2, let s := run g init_header_orig (init t0) evs in
